@@ -258,6 +258,21 @@ func c11Output(r model.Result) c11Out {
 	return out
 }
 
+// tableNativeMode reads the UseNativeInterpreter flag of a client's table.
+func tableNativeMode(d drv.Real, table string) (bool, bool) {
+	switch x := d.(type) {
+	case *drv.V1:
+		if t := x.C.VerifTable(table); t != nil {
+			return t.UseNativeInterpreter, true
+		}
+	case *drv.V2:
+		if t := x.C.VerifTable(table); t != nil {
+			return t.UseNativeInterpreter, true
+		}
+	}
+	return false, false
+}
+
 func newC11Driver(client string) drv.Real {
 	if client == "v1" {
 		return drv.NewV1()
@@ -410,6 +425,16 @@ func runC11(c c11Case, info *c11Info) *failure {
 				return newFail("table state corrupted by concurrent use", "table %s: SortedKeys %q Data keys %q", tn, wb.SortedKeys, wb.DataKeys)
 			}
 		}
+		// every table is in the interpreter mode of the client (they are switched together)
+		modes := map[bool][]string{}
+		for _, tn := range d.TableNames() {
+			if native, ok := tableNativeMode(d, tn); ok {
+				modes[native] = append(modes[native], tn)
+			}
+		}
+		if len(modes) > 1 {
+			return newFail("table state corrupted by concurrent use", "run %d: tables %v use the native interpreter, tables %v do not", run, modes[true], modes[false])
+		}
 		// the index of the main table holds exactly the stored items that carry its key
 		if tbl := d.Apply(model.Op{Kind: "Scan", Table: "tbl"}); tbl.Err == "" {
 			if ix := d.Apply(model.Op{Kind: "Scan", Table: "tbl", Index: "gidx"}); ix.Err == "" {
@@ -461,7 +486,7 @@ func init() {
 	}
 }
 
-const ruleC11 = "rapid generates concurrent programs (sequential setup + 2-8 goroutines x 2-10 operations released from a barrier), each executed repeatedly on a fresh SDK v1 or v2 client in a binary built with the Go race detector (GORACE=halt_on_error), two thirds of them with a generated pause plan (the n-th passage through a verif yield point inside the table operations sleeps 1.5 ms while the client lock is held, which puts the mutex into hand-off mode so that a lock dropped and re-taken inside an operation is interleaved): 'data' programs over a tiny key space of counter items (PutItem, conditional PutItem attribute_not_exists, UpdateItem ADD 1, GetItem, DeleteItem ALL_OLD, conditional DeleteItem) and 'catalogue' programs (CreateTable / DeleteTable / DescribeTable on two names, N racing CreateTable on one fresh name) whose invoke/return-stamped histories, completed by final reads, are checked for linearizability with porcupine against the sequential counter-item / table-catalogue specification (this subsumes 'N concurrent ADD-1 yield N' and 'exactly one of N racing conditional puts succeeds', both also generated as dedicated programs); 'failure' programs (writers and readers on the counter items beside goroutines that switch the emulated failure on and off and read DescribeTable's item count inside the window), checked against the specification extended by the switch: once EmulateFailure has returned, no write may land until it is switched off; 'mixed' programs over every client method (CreateTable / DeleteTable / UpdateTable / DescribeTable, batch calls over one and two tables with and without ConsistentRead, TransactWriteItems, Query, Scan, ClearTable, failure toggling, GetNativeInterpreter / SetInterpreter / ActivateNativeInterpreter, data operations). Oracles: race detector report (the program being executed is recorded before it starts), runtime panic or fatal error, deadlock watchdog (a goroutine parked on a lock, condition or channel below a minidyn frame after 30 s), linearizability, SortedKeys/Data consistency and index-vs-table agreement afterwards. Non-trivial = program in which >= 2 goroutines touch the same key or the table catalogue; distinct = hash of the program."
+const ruleC11 = "rapid generates concurrent programs (sequential setup + 2-8 goroutines x 2-10 operations released from a barrier), each executed repeatedly on a fresh SDK v1 or v2 client in a binary built with the Go race detector (GORACE=halt_on_error), two thirds of them with a generated pause plan (the n-th passage through a verif yield point inside the table operations sleeps 1.5 ms while the client lock is held, which puts the mutex into hand-off mode so that a lock dropped and re-taken inside an operation is interleaved): 'data' programs over a tiny key space of counter items (PutItem, conditional PutItem attribute_not_exists, UpdateItem ADD 1, GetItem, DeleteItem ALL_OLD, conditional DeleteItem) and 'catalogue' programs (CreateTable / DeleteTable / DescribeTable on two names, N racing CreateTable on one fresh name) whose invoke/return-stamped histories, completed by final reads, are checked for linearizability with porcupine against the sequential counter-item / table-catalogue specification (this subsumes 'N concurrent ADD-1 yield N' and 'exactly one of N racing conditional puts succeeds', both also generated as dedicated programs); 'failure' programs (writers and readers on the counter items beside goroutines that switch the emulated failure on and off and read DescribeTable's item count inside the window), checked against the specification extended by the switch: once EmulateFailure has returned, no write may land until it is switched off; 'native-race' programs (CreateTable racing with ActivateNativeInterpreter / SetInterpreter; afterwards all tables are in one interpreter mode); 'mixed' programs over every client method (CreateTable / DeleteTable / UpdateTable / DescribeTable, batch calls over one and two tables with and without ConsistentRead, TransactWriteItems, Query, Scan, ClearTable, failure toggling, GetNativeInterpreter / SetInterpreter / ActivateNativeInterpreter, data operations). Oracles: race detector report (the program being executed is recorded before it starts), runtime panic or fatal error, deadlock watchdog (a goroutine parked on a lock, condition or channel below a minidyn frame after 30 s), linearizability, SortedKeys/Data consistency and index-vs-table agreement afterwards. Non-trivial = program in which >= 2 goroutines touch the same key or the table catalogue; distinct = hash of the program."
 
 // c11Recorded: a failing program has been written to the replay file of this process.
 var c11Recorded bool
@@ -476,7 +501,7 @@ func TestC11(t *testing.T) {
 	}
 	rapid.Check(t, func(rt *rapid.T) {
 		c := c11Case{Client: rapid.SampledFrom([]string{"v1", "v2"}).Draw(rt, "client"), Runs: runs}
-		c.Flavour = rapid.SampledFrom([]string{"data", "data", "mixed", "mixed", "counter", "racing-puts", "racing-deletes", "catalogue", "racing-creates", "failure", "failure"}).Draw(rt, "flavour")
+		c.Flavour = rapid.SampledFrom([]string{"data", "data", "mixed", "mixed", "counter", "racing-puts", "racing-deletes", "catalogue", "racing-creates", "failure", "failure", "native-race"}).Draw(rt, "flavour")
 		mainSchema := sTable("tbl", false)
 		mainSchema.Attrs["g1"] = "S"
 		mainSchema.Indexes = []model.IndexSchema{{Name: "gidx", Hash: "g1", Global: true, NoThroughput: true}}
@@ -527,6 +552,26 @@ func TestC11(t *testing.T) {
 			c.Setup = append(c.Setup, c11DataOp(c11In{Kind: "PUT", Key: "k1", C: 7}))
 			for i := 0; i < nThreads; i++ {
 				c.Threads = append(c.Threads, []model.Op{c11DataOp(c11In{Kind: "CDEL", Key: "k1"}), c11DataOp(c11In{Kind: "CPUT", Key: "k1", C: i + 1})})
+			}
+			shared = true
+		case "native-race":
+			// table creation racing with the switches of the native interpreter: whatever
+			// the order, afterwards every table is in the mode the client is in
+			c.Flavour = "mixed"
+			for i := 0; i < nThreads; i++ {
+				var ops []model.Op
+				for j, n := 0, rapid.IntRange(1, 3).Draw(rt, "opsPerThread"); j < n; j++ {
+					ops = append(ops, rapid.SampledFrom([]model.Op{
+						{Kind: "CreateTable", Schema: sTable(fmt.Sprintf("fresh%d", i), false)},
+						{Kind: "CreateTable", Schema: sTable("other", false)},
+						{Kind: "NativeActivate"},
+						{Kind: "NativeActivate"},
+						{Kind: "NativeSet"},
+						{Kind: "NativeGet"},
+						{Kind: "DescribeTable", Table: "other"},
+					}).Draw(rt, "nativeRaceOp"))
+				}
+				c.Threads = append(c.Threads, ops)
 			}
 			shared = true
 		case "failure":
